@@ -18,8 +18,8 @@ import (
 )
 
 type c14Scheme struct {
-	name                       string
-	f                          func([]byte) (*SM2Point, error)
+	name                   string
+	f                      func([]byte) (*SM2Point, error)
 	window, sub, iter, rem int
 }
 
@@ -325,7 +325,6 @@ func TestVerif_C14_MixedDigits(t *testing.T) {
 	rec.Sample("digits", map[string]interface{}{"s": "v*2^pos, v=1..255", "P": "[7]G", "g": "0 and n-1"})
 }
 
-
 // Histories on ONE point object: it is re-set in place between multiplications (SetBytes / Set / Add in place / Negate in place),
 // and fresh objects with equal coordinates are mixed in — results must only depend on the point's current value.
 func TestVerif_C14_PointObjectHistory(t *testing.T) {
@@ -442,7 +441,6 @@ func TestVerif_C14_PointObjectHistory(t *testing.T) {
 		}
 	})
 }
-
 
 // Complete grid of SMALL scalars through the double-scalar routine: partial sums of the interleaved loop cancel
 // (accumulator at infinity in the middle of the computation) for many of these when P is a small negative multiple of G.
